@@ -515,8 +515,14 @@ def check_snapshot(ctx, prog):
     fn = ctx.need_fn(prog, "ncmpio_redef")
     dups = patterns.call_sites(fn, lambda n: n == "dup_NC")
     syncs = patterns.call_sites(fn, lambda n: n in ("ncmpio_end_indep_data", "ncmpio_sync_numrecs"))
-    ctx.require(len(dups) == 1 and syncs, "ncmpio_redef: dup_NC / record-count synchronisation call not found")
+    ctx.require(len(dups) == 1, "ncmpio_redef: the snapshot call dup_NC not found")
     db, di, dc = dups[0]
+    if not syncs:
+        ctx.fail("R4.nr.snapshot", fn.name, "dup_NC", "the header snapshot for the redefinition is taken without the record count "
+                 "having been synchronised at all (no call of ncmpio_end_indep_data / ncmpio_sync_numrecs in ncmpio_redef): records "
+                 "written in independent mode are known only to the rank that wrote them when the header is rewritten or the "
+                 "redefinition is aborted", fn=fn, line=dc.get("l", fn.line), inst="redef")
+        return
     bad = [c for b, i, c in syncs if (b.id == db.id and i > di) or (b.id != db.id and cfg.can_reach(fn, db.id, b.id))]
     if bad:
         ctx.fail("R4.nr.snapshot", fn.name, "dup_NC", "the header snapshot for the redefinition is taken before %s(): entering "
